@@ -418,6 +418,14 @@ func (s *Store) List(_ context.Context, list client.ObjectList, opts ...client.L
 				doc[k] = v
 			}
 		}
+		// the server returns every item with the apiVersion and kind served
+		if av, ok := doc["apiVersion"]; ok {
+			for _, it := range items {
+				m := it.(map[string]any)
+				m["apiVersion"] = av
+				m["kind"] = kind
+			}
+		}
 		u.SetUnstructuredContent(doc)
 		return nil
 	}
